@@ -34,3 +34,32 @@ func thmRoundTrip(f *Fasta, k int) {
 	}
 	_, _ = g, err
 }
+
+//@ theorem C01.roundtrip2
+//@   props C01
+//@   requires f1 != nil && f2 != nil
+//@   requires forall j int :: 0 <= j && j < len(f1.Name) ==> !nl(f1.Name[j])
+//@   requires forall j int :: 0 <= j && j < len(f1.Sequence) ==> !nl(f1.Sequence[j]) && f1.Sequence[j] != '>'
+//@   requires forall j int :: 0 <= j && j < len(f2.Name) ==> !nl(f2.Name[j])
+//@   requires forall j int :: 0 <= j && j < len(f2.Sequence) ==> !nl(f2.Sequence[j]) && f2.Sequence[j] != '>'
+// Two records written one after the other are read back in order: the first
+// read stops exactly where the second record starts, and the second read
+// returns the second record (k is an arbitrary position, as in C01.roundtrip).
+func thmRoundTrip2(f1, f2 *Fasta, k int) {
+	buf := &bytes.Buffer{}
+	f1.Write(buf)
+	f2.Write(buf)
+	rd := newReader(buf)
+	g1, err1 := rd.read()
+	//@ assert err1 == nil && g1 != nil
+	//@ assert len(g1.Name) == len(f1.Name)
+	//@ assert forall j int :: 0 <= j && j < len(f1.Name) ==> g1.Name[j] == f1.Name[j]
+	//@ assert rd.r.pos == 2 + len(f1.Name) + len(f1.Sequence) + (len(f1.Sequence) + 79) / 80
+	//@ assert len(g1.Sequence) == len(f1.Sequence)
+	g2, err2 := rd.read()
+	//@ assert err2 == nil && g2 != nil
+	//@ assert len(g2.Name) == len(f2.Name)
+	//@ assert forall j int :: 0 <= j && j < len(f2.Name) ==> g2.Name[j] == f2.Name[j]
+	//@ assert len(g2.Sequence) == len(f2.Sequence)
+	_, _, _, _, _ = g1, err1, g2, err2, k
+}
